@@ -4,7 +4,10 @@
    spec mode    : "<case line> || <outcome> n=<k> | <chunks of the IMPLEMENTATION>"
                   ->  "R <id> ok" or "R <id> <violated clause>,<violated clause>..."
                   (the extracted property evaluated on the implementation's own chunks)
-   Case format: see harness/src/bin/c14.rs. *)
+   coq mode     : case lines -> a Coq file whose [Eval vm_compute] lines evaluate the same model calls
+   expect mode  : case lines -> what those [Eval]s must print (tokenised), computed by the EXTRACTED code
+   Case format: see harness/src/bin/c14.rs.
+   Line format: R <id> <outcome> n=<k> | <chunks> [subs=<n>] [next <outcome> n=<k> | <chunks>] *)
 open Model
 open Util
 
@@ -19,6 +22,8 @@ let parse_paths s : ((n option * n option) * n option) list option =
     | [a; b; c] -> ((opt_n a, opt_n b), opt_n c)
     | _ -> failwith ("bad path " ^ p)) (split_on ',' s))
 
+let lst_o o = match o with Some l -> l | None -> []
+
 type case = {
   id : string;
   subscribe : bool;
@@ -31,6 +36,10 @@ type case = {
   lim : int;
   txv : n;
   rsv : n;
+  update : bool;                                        (* k=u: the measured interaction is a subscription report *)
+  ch : ((n option * n option) * n option) list;         (* changed attributes / clusters *)
+  e2 : evspec list;                                     (* events emitted after priming *)
+  ab : (bool * int) option;                             (* (silent?, chunk number) *)
 }
 
 let parse_spec s =
@@ -39,14 +48,17 @@ let parse_spec s =
 
 let parse_case (fields : string list) : case =
   let c = ref { id = List.nth fields 1; subscribe = false; nd = []; q = None; f = []; e = []; p = None; m = [];
-                lim = 40; txv = n_of_int 1178; rsv = n_of_int 24 } in
+                lim = 40; txv = n_of_int 1178; rsv = n_of_int 24; update = false; ch = []; e2 = []; ab = None } in
   List.iter (fun kv ->
     match String.index_opt kv '=' with
     | None -> ()
     | Some i ->
       let k = String.sub kv 0 i and v = String.sub kv (i + 1) (String.length kv - i - 1) in
       match k with
-      | "k" -> c := { !c with subscribe = (v = "s") }
+      | "k" -> c := { !c with subscribe = (v = "s" || v = "u"); update = (v = "u") }
+      | "c" -> if v <> "-" then c := { !c with ch = lst_o (parse_paths v) }
+      | "ab" -> if v <> "-" && String.length v > 1 then
+          c := { !c with ab = Some (v.[0] = 'x', int_of_string (String.sub v 1 (String.length v - 1))) }
       | "n" ->
         let cls = List.map (fun cl ->
           match String.index_opt cl ':' with
@@ -66,12 +78,13 @@ let parse_case (fields : string list) : case =
       | "f" -> if v <> "-" then
           c := { !c with f = List.map (fun x -> match String.split_on_char '.' x with
             | [a; b; d] -> ((n_of_string a, n_of_string b), n_of_string d) | _ -> failwith "bad filter") (split_on ',' v) }
-      | "e" -> if v <> "-" then
-          c := { !c with e = List.map (fun x -> match String.split_on_char '.' x with
+      | "e" | "e2" -> if v <> "-" then begin
+          let l = List.map (fun x -> match String.split_on_char '.' x with
             | [ep; cl; ev; pr; len; ts] ->
               { es_path = ((n_of_string ep, n_of_string cl), n_of_string ev); es_prio = n_of_string pr;
                 es_len = n_of_string len; es_ts = n_of_string ts }
-            | _ -> failwith "bad event") (split_on ',' v) }
+            | _ -> failwith "bad event") (split_on ',' v) in
+          if k = "e" then c := { !c with e = l } else c := { !c with e2 = l } end
       | "p" -> c := { !c with p = parse_paths v }
       | "m" -> if v <> "-" then c := { !c with m = List.map n_of_string (split_on ',' v) }
       | "lim" -> c := { !c with lim = int_of_string v }
@@ -82,12 +95,16 @@ let parse_case (fields : string list) : case =
 
 let u64max = n_of_string "18446744073709551615"
 
-let cfg_of (c : case) : cfg =
+(* the configuration of the measured interaction; [peer] = false: a peer that answers every chunk *)
+let cfg_of ?(peer = true) (c : case) : cfg =
+  let n_e = n_of_int (List.length c.e) and n_all = n_of_int (List.length c.e + List.length c.e2) in
   { tx = c.txv; reserve_sz = c.rsv;
     sub_w = (if c.subscribe then Some (n_of_int 1) else None);
     suppress = not c.subscribe;
     has_attrs = (c.q <> None); has_events = (c.p <> None);
-    ev_lo = N0; ev_hi = u64max }
+    ev_lo = (if c.update then n_e else N0);
+    ev_hi = (if c.update then n_all else u64max);
+    accept = (match c.ab with Some (_, k) when peer -> Some (n_of_int (k - 1)) | _ -> None) }
 
 let lst o = match o with Some l -> l | None -> []
 
@@ -126,17 +143,50 @@ let note_empty_lists (c : case) =
     List.iter (fun (id, sp) ->
       match sp with SList [] -> Hashtbl.replace empty_lists ((cl.cl_ep, cl.cl_id), id) () | _ -> ()) cl.cl_attrs) c.nd
 
+(* the inputs of the model for one case: work list, event statuses, event queue *)
+let inputs (c : case) =
+  let items = if c.update then report_items_of c.nd (lst c.q) c.ch else items_of c.nd c.f (lst c.q) in
+  let stats = ev_statuses_of c.nd (lst c.p) in
+  let evs = evs_of c.nd (lst c.p) c.m (n_of_int 1) (c.e @ c.e2) in
+  (items, stats, evs)
+
+let fuel = nat_of 64
+
+let chunk_texts chunks =
+  String.concat ";" (List.map (fun ch -> match parse_chunk ch with Some v -> view_str v | None -> "?model-chunk-does-not-parse") chunks)
+
+let outcome_str (c : case) o chunks =
+  match o with
+  | ODone -> if c.update && chunks = [] then "quiet" else "done"
+  | OStatus -> "status,status:137" | OError -> "hang" | OFuel -> "limit" | OAbort -> "aborted"
+
+(* one interaction of the model: (outcome, chunks, subscription still there?) *)
+let interaction ?(peer = true) (c : case) =
+  let cf = cfg_of ~peer c in
+  let (items, stats, evs) = inputs c in
+  if c.update then begin
+    let how = (match c.ab with Some (true, _) -> Silent | _ -> Refuses) in
+    let ((x, o), chunks) = report_round fuel cf how { sb_seen = cf.ev_lo; sb_pending = items } cf.ev_hi stats evs in
+    (o, chunks, Some (x <> None))
+  end else
+    let (o, chunks) = respond fuel cf items stats evs in (o, chunks, None)
+
+(* is there a next interaction to look at?  after a refusal: the same request again (read, subscribe);
+   after silence in a report: the reporter's retry *)
+let has_next (c : case) o =
+  o = OAbort && (match c.ab with Some (silent, _) -> if c.update then silent else not silent | None -> false)
+
 let run_model (c : case) =
   note_empty_lists c;
-  let cf = cfg_of c in
-  let items = items_of c.nd c.f (lst c.q) in
-  let stats = ev_statuses_of c.nd (lst c.p) in
-  let evs = evs_of c.nd (lst c.p) c.m (n_of_int 1) c.e in
-  let (o, chunks) = respond (nat_of 64) cf items stats evs in
-  let texts = List.map (fun ch -> match parse_chunk ch with Some v -> view_str v | None -> "?model-chunk-does-not-parse") chunks in
-  let oc = match o with
-    | ODone -> "done" | OStatus -> "status,status:137" | OError -> "hang" | OFuel -> "limit" in
-  Printf.sprintf "R %s %s n=%d | %s" c.id oc (List.length chunks) (String.concat ";" texts)
+  let (o, chunks, subs) = interaction c in
+  let b = Buffer.create 256 in
+  Buffer.add_string b (Printf.sprintf "R %s %s n=%d | %s" c.id (outcome_str c o chunks) (List.length chunks) (chunk_texts chunks));
+  (match subs with Some k -> Buffer.add_string b (Printf.sprintf " subs=%d" (if k then 1 else 0)) | None -> ());
+  if has_next c o then begin
+    let (o2, chunks2, _) = interaction ~peer:false c in
+    Buffer.add_string b (Printf.sprintf " next %s n=%d | %s" (outcome_str c o2 chunks2) (List.length chunks2) (chunk_texts chunks2))
+  end;
+  Buffer.contents b
 
 (* ---- spec mode: parse the implementation's chunks back into views ---- *)
 exception Bad of string
@@ -179,60 +229,181 @@ let parse_view (s : string) : view =
       v_more = has 'm'; v_supp = has 's'; v_size = n_of_string size }
   | _ -> raise (Bad "chunk text")
 
-let run_spec (c : case) (outcome : string) (chunks_txt : string) =
-  let cf = cfg_of c in
-  let items = items_of c.nd c.f (lst c.q) in
-  let stats = ev_statuses_of c.nd (lst c.p) in
-  let evs = evs_of c.nd (lst c.p) c.m (n_of_int 1) c.e in
-  let ex = expects_of c.nd c.f (lst c.q) in
+(* the extracted property on one interaction of the implementation *)
+let judge (c : case) ~(peer : bool) (outcome : string) (chunks_txt : string) (add : string -> unit) =
+  let cf = cfg_of ~peer c in
+  let (items, stats, evs) = inputs c in
+  let ex = if c.update then List.map expect_of_item items else expects_of c.nd c.f (lst c.q) in
   let xs = evexpects_of cf c.nd (lst c.p) evs in
   let fit = all_fit cf items stats evs in
-  let bad = ref [] in
-  let add s = bad := s :: !bad in
+  let before = ref 0 in
+  let add s = incr before; add s in
   (try
     let vs = List.map parse_view (List.filter (fun x -> x <> "") (String.split_on_char ';' (String.trim chunks_txt))) in
-    let is_done = (outcome = "done") in
     let is_status = (String.length outcome >= 6 && String.sub outcome 0 6 = "status") in
-    if is_done then begin
+    if outcome = "done" then begin
       if not (c14_exactly_once ex vs) then add "attr-exactly-once";
       if not (c14_events_once xs vs) then add "event-exactly-once";
       if not (c14_fits cf.tx vs) then add "chunk-size";
       if not (only_last_ends vs) then add "last-chunk-flag";
       if not (last_supp vs cf.suppress) then add "suppress-flag";
-      if (!bad = []) && not (c14_holds cf.tx cf.suppress ex xs vs) then add "c14-holds"
+      if (!before = 0) && not (c14_holds cf.tx cf.suppress ex xs vs) then add "c14-holds"
+    end else if outcome = "quiet" then begin
+      (* no report at all: only if there is nothing to report *)
+      if not (c.update && nothing_to_report cf items stats evs) then add "report-missing";
+      if vs <> [] then add "quiet-with-chunks"
     end else if is_status then begin
       (* an answer may be cut short by ResourceExhausted only if some report cannot fit an empty message *)
       if fit then add "aborted-though-everything-fits";
       if outcome <> "status,status:137" then add "unexpected-status";
       if not (c14_partial cf.tx ex xs vs) then add "partial-answer-inconsistent"
+    end else if outcome = "aborted" then begin
+      (* the peer refused chunk k or went silent after it: exactly k chunks, none of which claims to be the last,
+         and what was delivered is a correct beginning *)
+      (match c.ab with
+       | Some (_, k) when peer -> if List.length vs <> k then add "aborted-at-wrong-chunk"
+       | _ -> add "no-answer:aborted");
+      if not (List.for_all (fun v -> v.v_more && not v.v_supp) vs) then add "aborted-claims-completeness";
+      if not (c14_partial cf.tx ex xs vs) then add "partial-answer-inconsistent"
     end else
       add ("no-answer:" ^ outcome)
-  with Bad why -> add ("malformed-chunk:" ^ (String.concat "_" (String.split_on_char ' ' why))));
+  with Bad why -> add ("malformed-chunk:" ^ (String.concat "_" (String.split_on_char ' ' why))))
+
+(* rest = "<outcome> n=<k> | <chunks> [subs=<n>] [next <outcome> n=<k> | <chunks>] [extra..]" *)
+let run_spec (c : case) (rest : string) =
+  let bad = ref [] in
+  let add s = bad := s :: !bad in
+  let toks = List.filter (fun x -> x <> "") (String.split_on_char ' ' rest) in
+  let is_chunks t = String.length t > 0 && ((t.[0] >= '0' && t.[0] <= '9') || t.[0] = '?') in
+  (* one "<outcome> n=<k> | [<chunks>]" group; returns (outcome, chunks, remaining tokens) *)
+  let group toks = match toks with
+    | o :: _n :: "|" :: t :: more when is_chunks t -> (o, t, more)
+    | o :: _n :: "|" :: more -> (o, "", more)
+    | o :: more -> (o, "", more)
+    | [] -> ("missing", "", []) in
+  let (outcome, chunks, more) = group toks in
+  judge c ~peer:true outcome chunks add;
+  let subs, more = match more with
+    | t :: m when String.length t > 5 && String.sub t 0 5 = "subs=" -> (Some (int_of_string (String.sub t 5 (String.length t - 5))), m)
+    | m -> (None, m) in
+  (* the subscription afterwards: kept after a delivered (or empty) report and after silence, gone after a refusal
+     or a ResourceExhausted ending *)
+  if c.update then begin
+    let want = match outcome with
+      | "done" | "quiet" -> Some 1
+      | "aborted" -> (match c.ab with Some (true, _) -> Some 1 | _ -> Some 0)
+      | o when String.length o >= 6 && String.sub o 0 6 = "status" -> Some 0
+      | _ -> None in
+    (match want, subs with
+     | Some w, Some k -> if w <> k then add "subscription-state"
+     | Some _, None -> add "subscription-state-missing"
+     | None, _ -> ())
+  end;
+  let more = match more with
+    | "next" :: m ->
+      let (o2, ch2, m2) = group m in
+      let sub_bad = ref [] in
+      judge c ~peer:false o2 ch2 (fun s -> sub_bad := s :: !sub_bad);
+      List.iter (fun s -> add ("next:" ^ s)) (List.rev !sub_bad);
+      m2
+    | m ->
+      (* the next interaction must have been looked at whenever there is one *)
+      if outcome = "aborted" && has_next c OAbort then add "next:missing";
+      m in
+  (* anything else on the line (e.g. oversize-datagrams=..) is a violation of its own *)
+  List.iter add more;
   Printf.sprintf "R %s %s" c.id (if !bad = [] then "ok" else String.concat "," (List.rev !bad))
 
+(* ---- extraction sanity: the same calls, once through Coq's vm_compute, once through the extracted code ---- *)
+let coq_n v = string_of_n v
+let coq_opt f o = match o with Some x -> "(Some " ^ f x ^ ")" | None -> "None"
+let coq_list f l = "[" ^ String.concat "; " (List.map f l) ^ "]"
+let coq_bool b = if b then "true" else "false"
+let coq_rpath ((a, b), d) = Printf.sprintf "(%s, %s, %s)" (coq_opt coq_n a) (coq_opt coq_n b) (coq_opt coq_n d)
+let coq_path ((a, b), d) = Printf.sprintf "(%s, %s, %s)" (coq_n a) (coq_n b) (coq_n d)
+let coq_spec sp = match sp with
+  | SScalar l -> "SScalar " ^ coq_n l
+  | SList ls -> "SList " ^ coq_list coq_n ls
+let coq_clus cl = Printf.sprintf "mkClus %s %s %s %s" (coq_n cl.cl_ep) (coq_n cl.cl_id) (coq_n cl.cl_dv)
+    (coq_list (fun (id, sp) -> Printf.sprintf "(%s, %s)" (coq_n id) (coq_spec sp)) cl.cl_attrs)
+let coq_evspec e = Printf.sprintf "mkEvspec %s %s %s %s" (coq_path e.es_path) (coq_n e.es_prio) (coq_n e.es_len) (coq_n e.es_ts)
+let coq_cfg (cf : cfg) = Printf.sprintf "(mkCfg %s %s %s %s %s %s %s %s %s)" (coq_n cf.tx) (coq_n cf.reserve_sz)
+    (coq_opt coq_n cf.sub_w) (coq_bool cf.suppress) (coq_bool cf.has_attrs) (coq_bool cf.has_events)
+    (coq_n cf.ev_lo) (coq_n cf.ev_hi) (coq_opt coq_n cf.accept)
+
+(* the Coq term for the measured interaction of a case (mirrors [interaction]) *)
+let coq_term (c : case) =
+  let cf = cfg_of c in
+  let nd = coq_list coq_clus c.nd in
+  let qs = coq_list coq_rpath (lst c.q) and ps = coq_list coq_rpath (lst c.p) in
+  let fs = coq_list (fun ((a, b), d) -> Printf.sprintf "(%s, %s, %s)" (coq_n a) (coq_n b) (coq_n d)) c.f in
+  let stats = Printf.sprintf "(ev_statuses_of %s %s)" nd ps in
+  let evs = Printf.sprintf "(evs_of %s %s %s 1 %s)" nd ps (coq_list coq_n c.m) (coq_list coq_evspec (c.e @ c.e2)) in
+  if c.update then
+    Printf.sprintf "round_view (report_round 64 %s %s (mkSub %s (report_items_of %s %s %s)) %s %s %s)" (coq_cfg cf)
+      (match c.ab with Some (true, _) -> "Silent" | _ -> "Refuses") (coq_n cf.ev_lo) nd qs (coq_list coq_rpath c.ch)
+      (coq_n cf.ev_hi) stats evs
+  else
+    Printf.sprintf "read_view (respond 64 %s (items_of %s %s %s) %s %s)" (coq_cfg cf) nd fs qs stats evs
+
+let coq_header = String.concat "\n" [
+  "(* generated by ocaml/c14/driver.ml coq : extraction sanity sample *)";
+  "From RsM Require Import Lib.MachInt Model.Chunk Model.ChunkSpec.";
+  "Open Scope N_scope.";
+  "Definition read_view (r : outcome * list (list token)) := (@None N, fst r, snd r).";
+  "Definition round_view (r : option sub * outcome * list (list token)) :=";
+  "  let '(x, o, ch) := r in (match x with Some s => Some (sb_seen s) | None => None end, o, ch).";
+  "" ]
+
+(* the value as Coq prints it, up to layout *)
+let coq_atom a = match a with
+  | AWhole (p, sz) -> Printf.sprintf "AWhole %s %s" (coq_path p) (coq_n sz)
+  | AMarker (p, sz) -> Printf.sprintf "AMarker %s %s" (coq_path p) (coq_n sz)
+  | AElem (p, i, sz) -> Printf.sprintf "AElem %s %s %s" (coq_path p) (coq_n i) (coq_n sz)
+  | AStatus (p, code, sz) -> Printf.sprintf "AStatus %s %s %s" (coq_path p) (coq_n code) (coq_n sz)
+  | AEvent (num, sz) -> Printf.sprintf "AEvent %s %s" (coq_n num) (coq_n sz)
+  | AEvStatus (code, sz) -> Printf.sprintf "AEvStatus %s %s" (coq_n code) (coq_n sz)
+let coq_token t = match t with
+  | TStruct -> "TStruct" | TSubId w -> "TSubId " ^ coq_n w | TArrA -> "TArrA" | TArrE -> "TArrE" | TEnd -> "TEnd"
+  | TAtom a -> "TAtom (" ^ coq_atom a ^ ")" | TMore -> "TMore" | TSuppress -> "TSuppress" | TRev -> "TRev"
+let coq_outcome o = match o with
+  | ODone -> "ODone" | OStatus -> "OStatus" | OError -> "OError" | OAbort -> "OAbort" | OFuel -> "OFuel"
+
+let coq_expected (c : case) =
+  let cf = cfg_of c in
+  let (items, stats, evs) = inputs c in
+  let (x, o, chunks) =
+    if c.update then
+      let how = (match c.ab with Some (true, _) -> Silent | _ -> Refuses) in
+      let ((x, o), chunks) = report_round fuel cf how { sb_seen = cf.ev_lo; sb_pending = items } cf.ev_hi stats evs in
+      ((match x with Some s -> Some s.sb_seen | None -> None), o, chunks)
+    else let (o, chunks) = respond fuel cf items stats evs in (None, o, chunks) in
+  Printf.sprintf "= (%s, %s, %s)" (match x with Some v -> "Some " ^ coq_n v | None -> "None") (coq_outcome o)
+    (coq_list (coq_list coq_token) chunks)
+
 let () =
-  let spec = Array.length Sys.argv > 1 && Sys.argv.(1) = "spec" in
+  let mode = if Array.length Sys.argv > 1 then Sys.argv.(1) else "" in
+  let spec = (mode = "spec") in
+  if mode = "coq" then print_string coq_header;
   try
     while true do
       let line = input_line stdin in
       if String.length line > 2 && String.sub line 0 2 = "R " then begin
         if spec then begin
-          (* <case> || <outcome> n=<k> | <chunks> *)
+          (* <case> || <outcome> n=<k> | <chunks> ... *)
           let sep =
             let rec find i = if i + 4 > String.length line then failwith "no || separator"
               else if String.sub line i 4 = " || " then i else find (i + 1) in find 0 in
           let case_part = String.sub line 0 sep in
           let rest = String.sub line (sep + 4) (String.length line - sep - 4) in
           let c = parse_case (String.split_on_char ' ' case_part) in
-          let bar = try String.index rest '|' with Not_found -> String.length rest in
-          let head = String.trim (String.sub rest 0 bar) in
-          let chunks = if bar < String.length rest then String.sub rest (bar + 1) (String.length rest - bar - 1) else "" in
-          let outcome = List.hd (String.split_on_char ' ' head) in
-          (* anything after the chunk list (e.g. oversize-datagrams=..) is a violation of its own *)
-          let chunks, extra = match String.split_on_char ' ' (String.trim chunks) with
-            | [x] -> x, "" | x :: y :: _ -> x, y | [] -> "", "" in
-          let res = run_spec c outcome chunks in
-          if extra <> "" then print_endline (res ^ "," ^ extra) else print_endline res
+          print_endline (run_spec c rest)
+        end else if mode = "coq" then begin
+          let c = parse_case (String.split_on_char ' ' line) in
+          Printf.printf "(* %s *)\nEval vm_compute in (%s).\n" c.id (coq_term c)
+        end else if mode = "expect" then begin
+          let c = parse_case (String.split_on_char ' ' line) in
+          Printf.printf "%s %s\n" c.id (coq_expected c)
         end else
           print_endline (run_model (parse_case (String.split_on_char ' ' line)))
       end
